@@ -33,6 +33,8 @@ STRENGTHENED = {
     "C11-6": "C11: clause (e), two iterators of one reader used alternately with point lookups in between",
     "C12-6": "C12 component sub-check: compaction calls under a process file-size limit (the compaction fails like on a full disk), followed by the worker's CleanupObsoleteFiles; content must be preserved",
     "C13-5": "C13 loop class: slow-apply fault (an Apply that blocks for 5.5-8 s and then completes), observation continued after convergence",
+    "C14-3": "C14: 'aged_burst' class (replica connected through 15-22 s of silence, then 150-400 writes); found and fixed D18d on the way",
+    "C14-4": "C14: replica-side transient apply failure (the n-th PutInternal/DeleteInternal of the replica engine fails once, inside a multi-entry catch-up message)",
     "C13-4": "C13: real Replica state machine with injected transient apply failures (error state -> recovery -> new stream)",
     "C15-4": "C15: primary with a pre-history (older log files in the directory) so that the ack path's retention pass has work to do",
 }
